@@ -162,6 +162,12 @@ def _build(tree, cdir):
            env=env, check=False, timeout=1200)
     if p.returncode == 0:
         shutil.copy(os.path.join(rdir, 'release/examples/verif_replay'), os.path.join(cdir, 'replay-release'))
+    # binary crate harnesses (driver/print.rs, driver/interrupts.rs) replay through the binary itself
+    p = sh(['cargo', 'build', '--offline', '--bin', 'emulator_8086', '--target-dir', rdir], cwd=tree, env=env,
+           check=False, timeout=1200)
+    if p.returncode != 0:
+        raise BuildError('binary-crate harnesses do not compile natively against this tree:\n' + p.stdout[-6000:])
+    shutil.copy(os.path.join(rdir, 'debug/emulator_8086'), os.path.join(cdir, 'replaybin-dev'))
     # 4. Kani codegen: one goto binary per #[kani::proof]
     kdir = os.path.join(CACHE, 'target-kani')
     for d in glob.glob(os.path.join(kdir, 'kani', '*', 'debug', 'build', 'emulator_8086')):
@@ -384,8 +390,16 @@ def trace_witness(goto, backend, unwind, pid, timeout):
 
 
 # ------------------------------------------------------------------ native replay
+def _replay_cmd(cdir, harness, profile):
+    hs = json.load(open(os.path.join(cdir, 'harnesses.json')))
+    if hs.get(harness, {}).get('crate', '').endswith('_lib') or harness not in hs:
+        return [os.path.join(cdir, 'replay-' + profile)]
+    return [os.path.join(cdir, 'replaybin-dev'), '--verif-replay']
+
+
 def replay_run(cdir, harness, wit, profile='dev', kf_off=False, timeout=120):
-    binp = os.path.join(cdir, 'replay-' + profile)
+    cmd0 = _replay_cmd(cdir, harness, profile)
+    binp = cmd0[0]
     if not os.path.exists(binp):
         return None
     wf = os.path.join(cdir, 'wit-%d-%s.txt' % (os.getpid(), harness))
@@ -396,7 +410,7 @@ def replay_run(cdir, harness, wit, profile='dev', kf_off=False, timeout=120):
     if kf_off:
         env['VERIF_KF_OFF'] = '1'
     try:
-        p = subprocess.run([binp, 'run', harness, wf], stdout=subprocess.PIPE, stderr=subprocess.STDOUT, text=True,
+        p = subprocess.run(cmd0 + ['run', harness, wf], stdout=subprocess.PIPE, stderr=subprocess.STDOUT, text=True,
                            timeout=timeout, env=env)
     except subprocess.TimeoutExpired:
         return {'fails': [], 'panic': None, 'assume': [], 'missing': [], 'notes': [], 'timeout': True}
@@ -429,9 +443,9 @@ def parse_replay(out):
 
 
 def replay_random(cdir, harness, seed, count, timeout=300):
-    binp = os.path.join(cdir, 'replay-dev')
+    cmd0 = _replay_cmd(cdir, harness, 'dev')
     try:
-        p = subprocess.run([binp, 'random', harness, str(seed), str(count)], stdout=subprocess.PIPE,
+        p = subprocess.run(cmd0 + ['random', harness, str(seed), str(count)], stdout=subprocess.PIPE,
                            stderr=subprocess.STDOUT, text=True, timeout=timeout, env=ENV)
     except subprocess.TimeoutExpired:
         return {'ran': 0, 'skipped': 0, 'bad': 0, 'out': 'timeout'}
